@@ -42,7 +42,9 @@ type Effect struct {
 	Offset ssa.Value // row offset expression (stripped of the word/bit arithmetic), if recognisable
 	Val    ssa.Value // value stored / key inserted
 	Lock   string
-	Inlined bool // found inside a helper the body calls; operands are not tracked
+	Inlined bool // found inside a helper the body calls; operands that are parameters are bound to the call's arguments
+	Inner   ssa.Instruction          // the instruction inside the helper (Ins is the call in the loop body)
+	Bind    func(ssa.Value) ssa.Value // helper parameter ↦ argument of the call (nil result: not a parameter)
 }
 
 type ArmLoop struct {
@@ -341,6 +343,13 @@ func (a *ArmLoop) computeEffects() {
 		allInstrs(fn, func(ins ssa.Instruction) {
 			if e, ok := classify(a.P, ins, nil); ok {
 				e.Inlined = true
+				e.Inner = ins
+				e.Bind = func(v ssa.Value) ssa.Value {
+					if x, ok := bind(v); ok {
+						return x
+					}
+					return nil
+				}
 				if v, ok := bind(e.Offset); ok {
 					e.Offset = strip(v)
 				} else {
